@@ -56,6 +56,10 @@ func c10FS() fstest.MapFS {
 		"toggle.vuego": f(toggleElems("on", "who", "htmlv", "xs") + `<template include="comp/tcard.vuego" :label="who"></template><template include="comp/tcard.vuego" label="L-{{ who }}"><b>{{ who }}</b></template>`),
 		// a component that forwards values to a nested component, outside any loop
 		"comp/tcard.vuego":  f(`<section :data-l="label"><template include="comp/tlabel.vuego" :title="who" cls="c-{{ label }}"><slot>none</slot></template><template include="comp/tlabel.vuego" :title="label" v-if="on"></template></section>`),
+		// a slot that hands values to its content, and a page whose first loop reads the same names from outside the loop
+		"comp/sp.vuego":   f(`<div><slot :who="'slot-who'" :a="'slot-a'" :b="'slot-b'" :n="7" :q="'slot-q'" :v="'slot-v'" :t="false"></slot><slot name="foot" :who="'foot-who'" :z="9"></slot></div>`),
+		"slotprops.vuego": f(`<template include="comp/sp.vuego"><template #default="{ n, q }"><u>{{ n }}{{ q }}</u></template><template v-slot:foot="p"><s>{{ p.z }}</s></template></template><template include="comp/sp.vuego"><i>plain content</i></template>`),
+		"loopread.vuego":  f(`<ol><li v-for="x in xs">{{ who }}|{{ a }}|{{ b }}|{{ n }}|{{ q }}|{{ v }}|{{ z }}|{{ t }}|{{ x }}</li></ol><template include="comp/card.vuego" title="LR"><b>{{ who }}|{{ n }}|{{ z }}</b></template>`),
 		"comp/tlabel.vuego": f(`<span :class="cls" :title="title">{{ title }}<slot></slot></span>`),
 	}
 }
@@ -85,7 +89,7 @@ func c10Struct() any {
 
 func c10Catalogue() []c10Prog {
 	var ps []c10Prog
-	files := []string{"attrs.vuego", "maploop.vuego", "include.vuego", "layout.vuego", "layout2.vuego", "jsonprops.vuego", "filters.vuego", "chain.vuego", "fm.vuego", "assign.vuego", "bad-late.vuego", "bad-filter.vuego", "bad-include.vuego", "bad-required.vuego", "bad-layout.vuego"}
+	files := []string{"attrs.vuego", "maploop.vuego", "include.vuego", "layout.vuego", "layout2.vuego", "jsonprops.vuego", "filters.vuego", "chain.vuego", "fm.vuego", "assign.vuego", "loopread.vuego", "slotprops.vuego", "bad-late.vuego", "bad-filter.vuego", "bad-include.vuego", "bad-required.vuego", "bad-layout.vuego"}
 	for _, f := range files {
 		ps = append(ps, c10Prog{name: "load:" + f, entry: "LoadRender", page: f, data: c10Data})
 		if f != "layout.vuego" && f != "layout2.vuego" && f != "bad-layout.vuego" {
